@@ -242,7 +242,7 @@ def gen_workload(tape):
     # (no file of A has a partner -> the empty answer must come out cleanly)
     w["B"]["shift_h"] = tape.pick([0, 0, 0, 0, 0, 0, 0, H + 6], "shiftB")
     w["max_interval"] = tape.pick([3600, 300, 30, 10800, 90000], "mi")   # incl. > 1 day
-    w["max_interval_as"] = tape.pick(["number", "string", "timedelta"], "mi_as")
+    w["max_interval_as"] = tape.pick(["number", "string", "timedelta", "np_int64"], "mi_as")
     w["max_distance"] = tape.pick([1.0, 50.0, 0.1, 500.0], "md")
     w["max_distance_as"] = tape.pick(["number", "km", "m"], "md_as")
     if tape.flag("cut", 1, 3):
@@ -261,6 +261,7 @@ def gen_workload(tape):
     w["max_threads"] = tape.pick([3, 1, 2], "threads")
     w["out_dirs"] = tape.flag("out_dirs", 1, 2)      # output template with sub directories
     w["gz"] = tape.flag("gz_inputs", 1, 3)           # gzip-compressed input files
+    w["coverage_set_later"] = tape.flag("coverage_set_later", 1, 3)
     w["out_nc"] = tape.flag("out_nc", 1, 2)          # output files in NetCDF4 (typhon's default)
     # rarely: one file of each fileset is dense (> 10^6 candidate pairs for that
     # file pair -> the temporally pre-binned search inside a worker)
@@ -495,11 +496,21 @@ def run_one(tape, only=None):
         sets = {}
         for side in ("A", "B"):
             tmpl, needs_cov = _tmpl(w, side), TEMPLATES[w[side]["tmpl"]][1]
+            late_cov = needs_cov and w.get("coverage_set_later")
             sets[side] = FileSet(
                 f"{root}/{side}/{tmpl}", handler=handler, name=side,
-                time_coverage=_cov_td(w, side) if needs_cov else None,
+                time_coverage=_cov_td(w, side) if needs_cov and not late_cov else None,
                 max_threads=w["max_threads"], fs=SimLocalFS(),
                 temp_dir=os.path.join(root, "tmp"))
+            if late_cov:
+                # the user looks at the fileset first and tells it the duration
+                # of its files afterwards
+                try:
+                    list(sets[side].find(no_files_error=False))
+                except Exception:  # noqa
+                    pass
+                sets[side].time_coverage = _cov_td(w, side)
+                sim.probe("time_coverage_set_after_a_first_search")
         out_fs = None
         if w["output"] != "memory":
             out_fs = _T["Collocations"](
@@ -510,7 +521,8 @@ def run_one(tape, only=None):
         end = BASE + timedelta(seconds=w["period"][1])
         mi = w["max_interval"]
         mi_arg = {"number": mi, "string": f"{mi} s",
-                  "timedelta": timedelta(seconds=mi)}[w["max_interval_as"]]
+                  "timedelta": timedelta(seconds=mi),
+                  "np_int64": np.int64(mi)}[w["max_interval_as"]]
         md = w["max_distance"]
         md_arg = {"number": md, "km": f"{md} km",
                   "m": f"{md * 1000.0} m"}[w["max_distance_as"]]
